@@ -239,6 +239,10 @@ package option
 //@   props C18 C19
 //@   requires opt != nil
 //@   modifies opt.HelpSynopsis
+//@   ensures synopsis.aliases {C18}: forall i int :: 0 <= i && i < len(opt.Aliases) ==> contains(opt.HelpSynopsis, Dashed(opt.Aliases[i]))
+//@   loop "for _, e := range opt.Aliases"
+//@     invariant syn.len: len(aliases) == $idx + 1
+//@     invariant syn.each: forall i int :: 0 <= i && i <= $idx ==> aliases[i] == Dashed(opt.Aliases[i])
 
 //@ func (*Option).SetAlias
 //@   props C06 C18 C19
@@ -273,3 +277,6 @@ package option
 // Text of the missing-required-option error as produced by CheckRequired (used by the callers' contracts).
 //@ spec func ReqMsg(o *Option) string = ite(o.IsRequiredErr != "", errmsg(ErrorMissingRequiredOption) ++ o.IsRequiredErr,
 //@     errmsg(ErrorMissingRequiredOption) ++ "Missing required parameter '" ++ o.Name ++ "'")
+
+// Synopsis: the option's help synopsis names every alias with its dashes (C18).
+//@ spec func Dashed(e string) string = ite(len(e) > 1, "--" ++ e, ite(e != "-", "-" ++ e, e))
